@@ -18,6 +18,7 @@ import (
 	"sort"
 	"strings"
 	"sync"
+	"sync/atomic"
 
 	"github.com/tdewolff/minify/v2"
 	"verif/harness/core"
@@ -199,6 +200,8 @@ func paramsEq(a, b map[string]string) bool {
 }
 
 // c15CheckHistory runs all queries against the registry built from hist.
+func c15Marked(f func()) { f() }
+
 func c15CheckHistory(run *core.Run, hist []int, seen map[string]struct{}, seenMu *sync.Mutex) {
 	m := minify.New()
 	model := &c15Model{literal: map[string]int{}}
@@ -407,9 +410,23 @@ func C15(run *core.Run) {
 	}
 	var mu sync.Mutex
 	seen := map[string]struct{}{}
-	core.ParallelFor(len(hists), 0, func(i int) {
-		c15CheckHistory(run, hists[i], seen, &mu)
-	})
+	// registrations follow calls on the same registry (never concurrently): a registration that never returns -
+	// every worker parked, nothing left to wake them - is reported instead of waited for
+	var prog int64
+	done := make(chan struct{})
+	go func() {
+		core.ParallelFor(len(hists), 0, func(i int) {
+			c15Marked(func() { c15CheckHistory(run, hists[i], seen, &mu) })
+			atomic.AddInt64(&prog, 1)
+		})
+		close(done)
+	}()
+	if d := awaitMarked(done, &prog, "checks.c15Marked"); d != "" {
+		what := "a registration or call on a registry that is used by one goroutine only never returns (all workers parked with unchanging stacks):\n" + core.Trunc(d, 3000)
+		run.Violation(core.Key("c15-blocked", nil), what, map[string]string{"problem": what})
+		run.Finish("registration histories (stopped: a call blocked for ever)", nil, 1, false)
+		return
+	}
 	run.Set("exhaustive_history_length_bound", L)
 	run.Set("exhaustive_histories", exh)
 	run.Set("random_histories", nr)
@@ -535,6 +552,45 @@ func c15CmdCheck(run *core.Run, replay bool) string {
 			}
 			if err != nil || ob.String() != want {
 				bads = append(bads, fmt.Sprintf("registrations %v: ord/x gave %q (%v), the first registered match gives %q", order, ob.String(), err, want))
+			}
+		}
+	}
+	// a command whose program cannot be found is registered all the same: the type is served by it (and so fails
+	// with the start error), not by what was registered before it or by a pattern
+	{
+		missing := func() *exec.Cmd { return exec.Command("/nonexistent/verif-no-such-tool", "--flag") }
+		bare := func() *exec.Cmd { return exec.Command("verif-no-such-tool-on-path") }
+		for ci, build := range []func(mm *minify.M, hit *int){
+			func(mm *minify.M, hit *int) {
+				mm.AddFunc("ord/m", func(_ *minify.M, w io.Writer, r io.Reader, _ map[string]string) error { *hit++; return nil })
+				mm.AddCmd("ord/m", missing())
+			},
+			func(mm *minify.M, hit *int) {
+				mm.AddFuncRegexp(regexp.MustCompile(`^ord/`), func(_ *minify.M, w io.Writer, r io.Reader, _ map[string]string) error { *hit++; return nil })
+				mm.AddCmd("ord/m", bare())
+			},
+			func(mm *minify.M, hit *int) { mm.AddCmd("ord/m", bare()) },
+			func(mm *minify.M, hit *int) {
+				mm.AddCmdRegexp(regexp.MustCompile(`^ord/m$`), missing())
+				mm.AddFuncRegexp(regexp.MustCompile(`^ord/`), func(_ *minify.M, w io.Writer, r io.Reader, _ map[string]string) error { *hit++; return nil })
+			},
+		} {
+			mm := minify.New()
+			hit := 0
+			build(mm, &hit)
+			if !replay {
+				run.Eval()
+			}
+			var ob bytes.Buffer
+			err := mm.Minify("ord/m", &ob, strings.NewReader("payload"))
+			_, _, fn := mm.Match("ord/m")
+			switch {
+			case err == nil || errors.Is(err, minify.ErrNotExist):
+				bads = append(bads, fmt.Sprintf("missing-program case %d: the call for the type of a registered command returned %v", ci, err))
+			case hit != 0:
+				bads = append(bads, fmt.Sprintf("missing-program case %d: another minifier served the type of a registered command", ci))
+			case fn == nil:
+				bads = append(bads, fmt.Sprintf("missing-program case %d: Match finds nothing for the type of a registered command", ci))
 			}
 		}
 	}
